@@ -77,3 +77,38 @@ Proof.
   destruct Hok as (s & -> & _). right. exists s, ph. simpl. auto.
 Qed.
 Print Assumptions C10_modes_fieldname_mode.
+
+(* ---------- the whole command (Model/Job.v: main.go's Run end to end) ---------- *)
+From Coq Require Import NArith.
+From Model Require Import Stream Base64 KeyFile Cli Atlas Job.
+From Proofs Require Import JobProofs.
+
+(* an accepted local job, encryption included: when the output can be created, the key step succeeds with the string action [enc], the
+   input channel delivers [data] and the writes are accepted, the run ends with status 0 and leaves exactly [stream enc data] - the
+   placeholder-mode stream when [enc] is None, the encrypt-mode stream under the key of the key file otherwise - at its destination *)
+Theorem C10_job_output : forall tb cs a w m fs1 fs2 enc data bar,
+  decide (flags_of a w) = CAccept m -> m <> MAtlas ->
+  stage_out a w = Some fs1 -> stage_key a w fs1 = Some (fs2, enc) ->
+  (nonempty_s (a_out a) = true -> a_encrypt a && nonempty_s (a_keyfile a) = true -> a_keyfile a <> a_out a) ->
+  local_input a w m fs2 = Some (data, REof, bar) ->
+  (forall i, w_writer w i = Accept) -> snd (scan data REof) = SOk ->
+  j_status (job tb cs a w) = Exit0 /\ dest a (job tb cs a w) = stream tb cs (a_cfg a) enc data.
+Proof. exact job_local_output_gen. Qed.
+Print Assumptions C10_job_output.
+
+(* "with one key file, equal plaintexts give equal ciphertexts across lines, files and separate runs": the bytes an encrypting run leaves
+   are a function of the key in the key FILE, the configuration and the data - two runs (other processes, other directories, other
+   channels) whose key files hold the same key produce the same bytes *)
+Theorem C10_job_deterministic_across_runs : forall tb cs a1 w1 m1 a2 w2 m2 f1 f2 g1 g2 c1 mo1 c2 mo2 key data b1 b2,
+  decide (flags_of a1 w1) = CAccept m1 -> m1 <> MAtlas -> decide (flags_of a2 w2) = CAccept m2 -> m2 <> MAtlas ->
+  stage_out a1 w1 = Some f1 -> stage_out a2 w2 = Some f2 ->
+  a_encrypt a1 = true -> a_encrypt a2 = true -> nonempty_s (a_keyfile a1) = true -> nonempty_s (a_keyfile a2) = true ->
+  f1 (a_keyfile a1) = FFile c1 mo1 -> f2 (a_keyfile a2) = FFile c2 mo2 -> read_key c1 = Some key -> read_key c2 = Some key ->
+  a_keyfile a1 <> a_out a1 -> a_keyfile a2 <> a_out a2 ->
+  stage_key a1 w1 f1 = Some (g1, Some (w_encrypt w1 key)) -> stage_key a2 w2 f2 = Some (g2, Some (w_encrypt w2 key)) ->
+  w_encrypt w1 key = w_encrypt w2 key -> a_cfg a1 = a_cfg a2 ->
+  local_input a1 w1 m1 g1 = Some (data, REof, b1) -> local_input a2 w2 m2 g2 = Some (data, REof, b2) ->
+  (forall i, w_writer w1 i = Accept) -> (forall i, w_writer w2 i = Accept) -> snd (scan data REof) = SOk ->
+  dest a1 (job tb cs a1 w1) = dest a2 (job tb cs a2 w2).
+Proof. exact job_encrypt_deterministic. Qed.
+Print Assumptions C10_job_deterministic_across_runs.
